@@ -12,7 +12,7 @@ checks reported it).  Nothing is ever committed to /repo.
 import json, os, re, shutil, subprocess, sys
 
 ENV = dict(os.environ, GOFLAGS="-mod=mod", GOPROXY="off", GOSUMDB="off", GOTOOLCHAIN="local")
-WT = "/var/tmp/cseed"
+WT = "/var/tmp/cseed" + os.environ.get("SEED_SLOT", "")
 ROOT = os.path.dirname(os.path.dirname(os.path.abspath(__file__)))
 
 
